@@ -86,7 +86,7 @@ def run_task(rep, task):
 
         c07.explore_config(rep, task[1], clauses=C14_CTRL_CLAUSES, pid=PID)
     elif task[0] == 'hist':
-        hist_case(rep, *task[1:])
+        hist_case(rep, *task[1:7], shrink=(task[7] if len(task) > 7 else False))
 
 
 # ------------------------------------------------------------------------------------------------ (a) helpers
@@ -258,7 +258,8 @@ _orig_add = Hooks.add_to_stats
 def _rec_add(self, value, **kw):
     _orig_add(self, value, **kw)
     nr = self._Hooks__num_restarts
-    CALLS['add'].append((type(self).__name__, kw.get('type'), kw.get('time'), kw.get('level'), kw.get('iter'), nr, CALLS.get('attempt', 0)))
+    CALLS['add'].append((type(self).__name__, kw.get('type'), kw.get('time'), kw.get('level'), kw.get('iter'), nr, CALLS.get('attempt', 0), kw.get('process'),
+                         kw.get('sweep'), kw.get('process_sweeper')))
 
 
 class Count(Hooks):
@@ -281,17 +282,17 @@ class Count(Hooks):
         a = step.__dict__['_c14_attempt']
         P = step.levels[0].prob
         CALLS.setdefault('post', []).append((a, float(step.levels[0].time), bool(step.status.restart), CALLS['iters'][a],
-                                            P.__dict__.get('_c14_evals', 0) - CALLS['work'][a], int(step.status.restarts_in_a_row)))
+                                            P.__dict__.get('_c14_evals', 0) - CALLS['work'][a], int(step.status.restarts_in_a_row), float(step.levels[0].dt)))
 
 
-def hist_case(rep, NP, MAXR, NSTEPS, FIRST, CRASH, prefix):
+def hist_case(rep, NP, MAXR, NSTEPS, FIRST, CRASH, prefix, shrink=False):
     from harness import c09
     from pySDC.implementations.hooks.log_work import LogWork, LogSDCIterations
     from pySDC.implementations.hooks.log_solution import LogSolution
     from pySDC.implementations.hooks.log_step_size import LogStepSize
     from pySDC.implementations.problem_classes.TestEquation_0D import testequation0d
 
-    name = f'hist/NP{NP}/maxr{MAXR}/steps{NSTEPS}/first{int(FIRST)}/crash{int(CRASH)}'
+    name = f'hist/NP{NP}/maxr{MAXR}/steps{NSTEPS}/first{int(FIRST)}/crash{int(CRASH)}' + ('/shrink' if shrink else '')
     Hooks.add_to_stats = _rec_add
     orig_eval = testequation0d.eval_f
 
@@ -304,11 +305,11 @@ def hist_case(rep, NP, MAXR, NSTEPS, FIRST, CRASH, prefix):
     def fn(c):
         CALLS.clear()
         CALLS.update({'add': [], 'iters': {}, 'work': {}, 'post': [], 'attempt': 0})
-        r = c09.hist_run(c, NP, MAXR, NSTEPS, FIRST, CRASH, extra_hooks=[LogWork, LogSDCIterations, LogSolution, LogStepSize, Count])
+        r = c09.hist_run(c, NP, MAXR, NSTEPS, FIRST, CRASH, extra_hooks=[LogWork, LogSDCIterations, LogSolution, LogStepSize, Count], shrink=shrink)
         bad = []
         if r['status'] == 'ok':
             bad = judge_stats(r, NP)
-            bad += [b for b in c09.hist_judge(r, NP, MAXR, NSTEPS, FIRST, CRASH) if b[0] == 'stats-recomputed-filter']
+            bad += [b for b in c09.hist_judge(r, NP, MAXR, NSTEPS, FIRST, CRASH, shrink=shrink) if b[0] == 'stats-recomputed-filter']
         return dict(status=r['status'], bad=bad, log=[(l[0], l[1], l[5], l[6]) for l in r['log']], used=c.pos)
 
     try:
@@ -320,17 +321,20 @@ def hist_case(rep, NP, MAXR, NSTEPS, FIRST, CRASH, prefix):
     rep.paths += len(paths)
     rep.decisions += sum(len(p.decisions) for p in paths)
     nbad = 0
+    seen = set()
     for p in paths:
         if not p.result['bad']:
             continue
         nbad += 1
-        if nbad > 2:
-            continue
-        rep.replayed += 1
-        b = p.result['bad'][0]
-        rep.violation(f'{PID}/{b[0]}', f'{name}: {b[0]}: {str(b[1])[:300]}; post_step log (slot, time, restart, restarts_in_a_row): {p.result["log"]}',
-                      {'task': ['hist', NP, MAXR, NSTEPS, FIRST, CRASH], 'decisions': p.decisions, 'violated': [(x[0], str(x[1])[:300]) for x in p.result['bad']],
-                       'log': p.result['log']})
+        for b in p.result['bad']:  # one report per distinct violated clause (so that a listed finding cannot mask another clause)
+            key = f'{PID}/{b[0]}' + ('/step-size-changed-on-restart' if shrink else '')
+            if key in seen:
+                continue
+            seen.add(key)
+            rep.replayed += 1
+            rep.violation(key, f'{name}: {b[0]}: {str(b[1])[:300]}; post_step log (slot, time, restart, restarts_in_a_row): {p.result["log"]}',
+                          {'task': ['hist', NP, MAXR, NSTEPS, FIRST, CRASH], 'shrink': shrink, 'decisions': p.decisions, 'violated': [(x[0], str(x[1])[:300]) for x in p.result['bad']],
+                           'log': p.result['log']})
     rep.extra['histories_by_config'] = rep.extra.get('histories_by_config', []) + [{'config': name, 'prefix': prefix, 'paths': len(paths), 'violating': nbad}]
     if paths and len(rep.samples) < 8:
         p = paths[len(paths) // 2]
@@ -343,23 +347,22 @@ def judge_stats(r, NP):
     st = r['stats']
     acc = [l for l in r['log'] if not l[5]]
     posts = [p for p in CALLS['post'] if not p[2]]  # accepted attempts: (attempt, time, restart, iters, evals, restarts_in_a_row)
-    dt = acc[0][2] if acc else 0
     start_types = ['niter', 'residual_post_step', 'restart', 'dt']
     end_types = ['u', 'k', 'work_rhs']
     for typ in start_types + end_types:
         recs = filter_stats(st, type=typ, recomputed=False)
         times = sorted(round(float(k.time), 9) for k in recs)
-        off = dt if typ in end_types else 0.0
-        exp = sorted(round(a[1] + off, 9) for a in acc)
+        end = typ in end_types
+        exp = sorted(round(a[1] + (a[2] if end else 0.0), 9) for a in acc)
         if times != exp:
             bad.append(('one-record-per-accepted-step', {'type': typ, 'record_times': times, 'accepted': exp}))
             continue
         for k, v in recs.items():
-            a = [x for x in posts if round(x[1] + off, 9) == round(float(k.time), 9)]
+            a = [x for x in posts if round(x[1] + (x[6] if end else 0.0), 9) == round(float(k.time), 9)]
             if len(a) != 1:
                 bad.append(('one-record-per-accepted-step', {'type': typ, 'time': k.time, 'attempts': a}))
                 continue
-            att, tm, _, iters, evals, nr = a[0]
+            att, tm, _, iters, evals, nr, _dt = a[0]
             if k.num_restarts != nr:
                 bad.append(('restart-count-key', {'type': typ, 'time': k.time, 'key': k.num_restarts, 'step': nr}))
             if typ == 'niter' and (v != iters or k.iter != iters):
@@ -372,10 +375,10 @@ def judge_stats(r, NP):
                 bad.append(('accepted-step-flagged-restart', {'time': k.time}))
     # no silent key collisions: two add_to_stats calls from different attempts must not hit the same key
     seen = {}
-    for (hook, typ, tm, lvl, it, nr, att) in CALLS['add']:
+    for (hook, typ, tm, lvl, it, nr, att, proc, swp, psw) in CALLS['add']:
         if typ in ('_recomputed',) or typ is None:
             continue
-        key = (hook, typ, round(float(tm), 9) if tm is not None else None, lvl, it, nr)
+        key = (hook, typ, round(float(tm), 9) if tm is not None else None, lvl, it, nr, proc, swp, psw)  # all fields of the Entry key
         if key in seen and seen[key] != att and typ in start_types + end_types:
             bad.append(('key-collision', {'key': key, 'attempts': (seen[key], att)}))
         seen.setdefault(key, att)
@@ -394,7 +397,7 @@ def replay(path):
         from symx.report import Report
 
         rep = Report(PID)
-        hist_case(rep, *t[1:], prefix=d['decisions'])
+        hist_case(rep, *t[1:6], prefix=d['decisions'], shrink=d.get('shrink', False))
         bad = bool(rep.violations)
         print(rep.violations[:1])
     elif len(t) == 8:
